@@ -2,21 +2,27 @@
 
 Reads the *compiled pattern objects* `invalid_obj_path_re`, `if_re`, `bus_re`, `mbr_re`,
 `dot_digit_re` from the working tree's txdbus.marshal and writes
-lean/TxdbusModel/Gen/Validators.lean:
+lean/TxdbusModel/Gen/Validators.lean.  The tables are derived from the BEHAVIOUR of the
+compiled patterns under the regex engine (probing every one of the 1,114,112 code points), not
+from the pattern syntax, so that a rewrite that matches the same strings (`re.ASCII`, `\\w`
+inside a class, a trailing `+`, another order of the ranges, ...) yields the same table:
 
-  * a negated character class `[^...]` (the only form accepted for the first four) is parsed
-    from the pattern string into the sorted, merged list of inclusive code-point ranges of the
-    characters it *lists* (= the characters the validator allows);
-  * `\\.\\d` style two-step patterns (the only form accepted for `dot_digit_re`) are parsed into
-    two positive code-point range lists (first step, second step).  `\\d` in a `str` pattern
-    without re.ASCII is Unicode category Nd; its ranges are taken from the re engine itself.
+  * the four "character" patterns (`rx.search(n)` finds an offending character): the table is
+    the list of inclusive code-point ranges of the characters `c` with `rx.search(c) is None`
+    (= the characters the validator allows).  That the pattern really is a per-character
+    predicate (`rx.search(s)` iff some character of `s` is an offending one, nothing matches the
+    empty string) is checked on several thousand sample strings; if not -> TranslatorError.
+  * `dot_digit_re` (`rx.search(n)` finds an offending adjacent PAIR): two tables `first`,
+    `second` with `rx.search(a + b)` iff `a in first and b in second`; no single character and
+    not the empty string matches; checked as a product and on sample strings of length 3-5
+    (`rx.search(s)` iff some adjacent pair of `s` is in first x second); if not -> TranslatorError.
 
-Anything outside that restricted form (other flags, anchors, quantifiers, alternation, a
-non-negated class where a negated one is expected, ...) raises TranslatorError: the table
-obligation of C18 is then broken and the pipeline widens the search.
-
-Every parsed class is cross-checked against the regex engine on all 1,114,112 code points.
+TranslatorError (the table obligation of C18 is then broken and the pipeline widens the
+search) is therefore reserved for patterns whose behaviour has another SHAPE (anchors,
+multi-character conditions, a non-regex object), which the hand-written model cannot mirror
+through these tables anyway.
 """
+import random
 import re
 
 MODULE = 'TxdbusModel.Gen.Validators'
@@ -26,22 +32,6 @@ MAXCP = 0x10FFFF
 
 class TranslatorError(Exception):
     pass
-
-
-# --------------------------------------------------------------------------- parsing
-_SPECIAL = set('.^$*+?{}[]\\|()')
-
-
-def _merge(ranges):
-    out = []
-    for lo, hi in sorted(ranges):
-        if lo > hi:
-            raise TranslatorError('bad character range %r-%r' % (chr(lo), chr(hi)))
-        if out and lo <= out[-1][1] + 1:
-            out[-1] = (out[-1][0], max(out[-1][1], hi))
-        else:
-            out.append((lo, hi))
-    return out
 
 
 _ALL = None
@@ -55,137 +45,144 @@ def _all_chars():
 
 
 def _ranges_of_set(cps):
-    """sorted list of code points -> merged inclusive ranges"""
-    return _merge((c, c) for c in cps)
-
-
-def _digit_ranges():
-    return _ranges_of_set(ord(ch) for ch in re.compile(r'\d').findall(_all_chars()))
-
-
-def _parse_class_item(pat, i):
-    """one literal inside [...] starting at pat[i]; returns (code point, next index)"""
-    ch = pat[i]
-    if ch == '\\':
-        if i + 1 >= len(pat):
-            raise TranslatorError('dangling backslash in %r' % pat)
-        e = pat[i + 1]
-        if e.isalnum():
-            raise TranslatorError('escape \\%s inside a character class is outside the supported form (%r)' % (e, pat))
-        return ord(e), i + 2
-    if ch in '[]':
-        raise TranslatorError('unsupported %r inside a character class (%r)' % (ch, pat))
-    return ord(ch), i + 1
-
-
-def _parse_class(pat, i):
-    """pat[i] == '['.  Returns (negated, ranges, next index)."""
-    assert pat[i] == '['
-    i += 1
-    neg = False
-    if i < len(pat) and pat[i] == '^':
-        neg = True
-        i += 1
-    ranges = []
-    first = True
-    while True:
-        if i >= len(pat):
-            raise TranslatorError('unterminated character class in %r' % pat)
-        if pat[i] == ']' and not first:
-            i += 1
-            break
-        first = False
-        lo, i = _parse_class_item(pat, i)
-        if i + 1 < len(pat) and pat[i] == '-' and pat[i + 1] != ']':
-            hi, i = _parse_class_item(pat, i + 1)
-            ranges.append((lo, hi))
+    """iterable of code points -> sorted merged inclusive ranges"""
+    out = []
+    for c in sorted(cps):
+        if out and c <= out[-1][1] + 1:
+            out[-1][1] = max(out[-1][1], c)
         else:
-            ranges.append((lo, lo))
-    if not ranges:
-        raise TranslatorError('empty character class in %r' % pat)
-    return neg, _merge(ranges), i
+            out.append([c, c])
+    return [tuple(r) for r in out]
 
 
-def _parse_atom(pat, i):
-    """One atom of a sequence pattern: `\\d`, an escaped punctuation character, a plain
-    alphanumeric literal, or a positive class.  Returns (ranges, next index)."""
-    ch = pat[i]
-    if ch == '\\':
-        if i + 1 >= len(pat):
-            raise TranslatorError('dangling backslash in %r' % pat)
-        e = pat[i + 1]
-        if e == 'd':
-            return _digit_ranges(), i + 2
-        if e.isalnum():
-            raise TranslatorError('escape \\%s is outside the supported form (%r)' % (e, pat))
-        return [(ord(e), ord(e))], i + 2
-    if ch == '[':
-        neg, ranges, j = _parse_class(pat, i)
-        if neg:
-            raise TranslatorError('negated class as a step of a sequence pattern is outside the supported form (%r)' % pat)
-        return ranges, j
-    if ch in _SPECIAL:
-        raise TranslatorError('regex operator %r is outside the supported form (%r)' % (ch, pat))
-    return [(ord(ch), ord(ch))], i + 1
+def _complement(ranges):
+    out, nxt = [], 0
+    for lo, hi in ranges:
+        if lo > nxt:
+            out.append((nxt, lo - 1))
+        nxt = hi + 1
+    if nxt <= MAXCP:
+        out.append((nxt, MAXCP))
+    return out
 
 
-def _check_flags(name, rx):
+def _in(ranges, c):
+    return any(lo <= c <= hi for lo, hi in ranges)
+
+
+def _require_pattern(name, rx):
     if not isinstance(rx, re.Pattern):
-        raise TranslatorError('%s is not a compiled pattern: %r' % (name, rx))
+        raise TranslatorError('%s is not a compiled regular expression: %r' % (name, rx))
     if not isinstance(rx.pattern, str):
         raise TranslatorError('%s is not a str pattern' % name)
-    if rx.flags != re.UNICODE:
-        raise TranslatorError('%s compiled with flags %r; only the default (re.UNICODE) is supported' % (name, rx.flags))
 
 
-def parse_negated_class(name, rx):
-    """`[^...]` -> ranges of the listed (= allowed) characters, cross-checked with the engine."""
-    _check_flags(name, rx)
-    pat = rx.pattern
-    if not pat.startswith('['):
-        raise TranslatorError('%s = %r is not a single character class' % (name, pat))
-    neg, allowed, j = _parse_class(pat, 0)
-    if j != len(pat):
-        raise TranslatorError('%s = %r: trailing %r after the character class' % (name, pat, pat[j:]))
-    if not neg:
-        raise TranslatorError('%s = %r is not a negated class' % (name, pat))
-    # engine cross-check: the characters the pattern matches are exactly the complement
-    matched = rx.findall(_all_chars())
-    if any(len(m) != 1 for m in matched):
-        raise TranslatorError('%s: engine returned a non-single-character match' % name)
+def _sample_chars(ranges, rng, extra=40):
+    """code points around every range boundary, fixed ASCII / non-ASCII probes, a few random ones"""
+    cps = set()
+    for lo, hi in ranges[:200]:
+        for c in (lo - 1, lo, lo + 1, hi - 1, hi, hi + 1):
+            if 0 <= c <= MAXCP:
+                cps.add(c)
+    cps.update(ord(ch) for ch in 'aZ09_.-:/ \n\x00\x7f\x80\u00e9\u0663\u00b2\uff15\u212a\u017f\u4e2d\U0001d7d8')
+    for _ in range(extra):
+        cps.add(rng.randrange(0, MAXCP + 1))
+    return sorted(cps)
+
+
+# --------------------------------------------------------------------------- character patterns
+def char_predicate_table(name, rx):
+    """ranges of the ALLOWED characters {c : rx.search(c) is None}; checks the per-character shape."""
+    _require_pattern(name, rx)
+    if rx.search('') is not None:
+        raise TranslatorError('%s = %r matches the empty string: not a per-character test' % (name, rx.pattern))
+    allc = _all_chars()
+    # characters outside every match of the whole code-point string ...
+    if rx.groups == 0:
+        allowed = _ranges_of_set(ord(ch) for ch in set(''.join(rx.split(allc))))
+    else:
+        hit = set()
+        for m in rx.finditer(allc):
+            hit.update(m.group(0))
+        allowed = _complement(_ranges_of_set(ord(ch) for ch in hit))
+    # ... confirmed one by one on the (small) allowed side and on a sample of the offending side
+    rng = random.Random(18)
     n_allowed = sum(hi - lo + 1 for lo, hi in allowed)
-    if len(matched) != MAXCP + 1 - n_allowed:
-        raise TranslatorError('%s = %r: parsed class and regex engine disagree (count)' % (name, pat))
-    for lo, hi in allowed:
-        for c in range(lo, hi + 1):
-            if rx.search(chr(c)):
-                raise TranslatorError('%s = %r: parsed class and regex engine disagree at U+%04X' % (name, pat, c))
+    if n_allowed <= 20000:
+        for lo, hi in allowed:
+            for c in range(lo, hi + 1):
+                if rx.search(allc[c]) is not None:
+                    raise TranslatorError('%s = %r: U+%04X matches alone but not inside the code-point string: '
+                                          'not a per-character test' % (name, rx.pattern, c))
+    sample = _sample_chars(allowed, rng)
+    for c in sample:
+        if (rx.search(allc[c]) is None) != _in(allowed, c):
+            raise TranslatorError('%s = %r: behaviour on U+%04X alone differs from its behaviour in context: '
+                                  'not a per-character test' % (name, rx.pattern, c))
+    # per-character shape on strings: search(s) iff some character is offending
+    off = {c: not _in(allowed, c) for c in sample}
+    for a in sample:
+        for b in sample:
+            if (rx.search(allc[a] + allc[b]) is not None) != (off[a] or off[b]):
+                raise TranslatorError('%s = %r is not a per-character test (pair U+%04X U+%04X)' % (name, rx.pattern, a, b))
+    ok = [c for c in sample if not off[c]][:24]
+    for a in ok:
+        for b in ok:
+            for c in ok:
+                if rx.search(allc[a] + allc[b] + allc[c]) is not None:
+                    raise TranslatorError('%s = %r is not a per-character test (triple U+%04X U+%04X U+%04X)'
+                                          % (name, rx.pattern, a, b, c))
+    for _ in range(4000):
+        s = ''.join(allc[rng.choice(sample)] for _ in range(rng.randint(2, 5)))
+        want = any(not _in(allowed, ord(ch)) for ch in s)
+        if (rx.search(s) is not None) != want:
+            raise TranslatorError('%s = %r is not a per-character test (sample %r)' % (name, rx.pattern, s))
     return allowed
 
 
-def parse_two_step(name, rx):
-    """a sequence of exactly two single-character atoms -> (first ranges, second ranges)"""
-    _check_flags(name, rx)
-    pat = rx.pattern
-    steps = []
-    i = 0
-    while i < len(pat):
-        r, i = _parse_atom(pat, i)
-        steps.append(r)
-    if len(steps) != 2:
-        raise TranslatorError('%s = %r has %d steps, expected 2' % (name, pat, len(steps)))
-    first, second = steps
-    # engine cross-check, one position at a time
-    a0, b0 = chr(first[0][0]), chr(second[0][0])
+# --------------------------------------------------------------------------- pair pattern
+def pair_tables(name, rx):
+    """(first, second) with rx.search(a+b) iff a in first and b in second; checks the pair shape."""
+    _require_pattern(name, rx)
     allc = _all_chars()
-    got_second = _ranges_of_set(c for c in range(MAXCP + 1) if rx.fullmatch(a0 + allc[c]))
-    if got_second != second:
-        raise TranslatorError('%s = %r: second step disagrees with the regex engine' % (name, pat))
-    # first step: only a modest window is scanned exhaustively (the step is a literal in practice)
-    got_first = _ranges_of_set(c for c in range(0x3000) if rx.fullmatch(allc[c] + b0))
-    want_first = _merge((lo, min(hi, 0x2FFF)) for lo, hi in first if lo < 0x3000)
-    if got_first != want_first:
-        raise TranslatorError('%s = %r: first step disagrees with the regex engine' % (name, pat))
+    if rx.search('') is not None:
+        raise TranslatorError('%s = %r matches the empty string: not an adjacent-pair test' % (name, rx.pattern))
+    for c in range(128):
+        if rx.search(allc[c]) is not None:
+            raise TranslatorError('%s = %r matches the single character U+%04X: not an adjacent-pair test'
+                                  % (name, rx.pattern, c))
+    # a witness pair in ASCII
+    wit = None
+    for a in range(128):
+        for b in range(128):
+            if rx.search(allc[a] + allc[b]) is not None:
+                wit = (a, b)
+                break
+        if wit:
+            break
+    if wit is None:
+        raise TranslatorError('%s = %r: no ASCII pair matches: not an adjacent-pair test' % (name, rx.pattern))
+    a0, b0 = allc[wit[0]], allc[wit[1]]
+    second = _ranges_of_set(c for c in range(MAXCP + 1) if rx.search(a0 + allc[c]) is not None)
+    first = _ranges_of_set(c for c in range(MAXCP + 1) if rx.search(allc[c] + b0) is not None)
+    rng = random.Random(18)
+    sa, sb = _sample_chars(first, rng), _sample_chars(second, rng)
+    sample = sorted(set(sa) | set(sb))
+    for c in sample:
+        if rx.search(allc[c]) is not None:
+            raise TranslatorError('%s = %r matches the single character U+%04X: not an adjacent-pair test'
+                                  % (name, rx.pattern, c))
+    for a in sample:
+        for b in sample:
+            if (rx.search(allc[a] + allc[b]) is not None) != (_in(first, a) and _in(second, b)):
+                raise TranslatorError('%s = %r: the matched pairs are not a product first x second (U+%04X U+%04X)'
+                                      % (name, rx.pattern, a, b))
+    for _ in range(6000):
+        s = [rng.choice(sample) for _ in range(rng.randint(3, 5))]
+        want = any(_in(first, s[i]) and _in(second, s[i + 1]) for i in range(len(s) - 1))
+        if (rx.search(''.join(allc[c] for c in s)) is not None) != want:
+            raise TranslatorError('%s = %r is not an adjacent-pair test (sample %r)'
+                                  % (name, rx.pattern, ''.join(allc[c] for c in s)))
     return first, second
 
 
@@ -194,22 +191,31 @@ def _lean_ranges(rs):
     return '[' + ', '.join('(%d, %d)' % r for r in rs) + ']'
 
 
-def _lean_str(s):
-    return '"' + s.replace('\\', '\\\\').replace('"', '\\"') + '"'
+def _wrapped(rs):
+    items = ['(%d, %d)' % r for r in rs]
+    lines, cur = [], '  ['
+    for k, it in enumerate(items):
+        piece = it + (', ' if k + 1 < len(items) else ']')
+        if len(cur) + len(piece) > 100:
+            lines.append(cur.rstrip())
+            cur = '   '
+        cur += piece
+    if not items:
+        cur += ']'
+    lines.append(cur)
+    return lines
 
 
 def tables(marshal):
     t = {}
     for lean_name, attr in (('objPath', 'invalid_obj_path_re'), ('iface', 'if_re'),
                             ('bus', 'bus_re'), ('member', 'mbr_re')):
-        rx = getattr(marshal, attr, None)
-        if rx is None:
+        if not hasattr(marshal, attr):
             raise TranslatorError('txdbus.marshal.%s no longer exists' % attr)
-        t[lean_name] = (attr, rx.pattern if hasattr(rx, 'pattern') else repr(rx), parse_negated_class(attr, rx))
-    rx = getattr(marshal, 'dot_digit_re', None)
-    if rx is None:
+        t[lean_name] = (attr, char_predicate_table(attr, getattr(marshal, attr)))
+    if not hasattr(marshal, 'dot_digit_re'):
         raise TranslatorError('txdbus.marshal.dot_digit_re no longer exists')
-    t['dotDigit'] = ('dot_digit_re', rx.pattern if hasattr(rx, 'pattern') else repr(rx), parse_two_step('dot_digit_re', rx))
+    t['dotDigit'] = ('dot_digit_re', pair_tables('dot_digit_re', marshal.dot_digit_re))
     return t
 
 
@@ -220,36 +226,31 @@ def emit(repo):
     out.append('/-')
     out.append('GENERATED by tools/tables/c18_validators.py from the compiled regular expressions in')
     out.append('txdbus/marshal.py of the repository under test.  Do not edit: regenerated on every run.')
+    out.append('The tables describe the BEHAVIOUR of the patterns under the regex engine (every code point')
+    out.append('probed), so they do not depend on how a pattern is spelled.')
     out.append('')
-    out.append('For the four negated classes `[^...]` the table is the list of inclusive code-point ranges')
-    out.append('of the characters the class LISTS, i.e. the characters the validator allows (a validator')
-    out.append('rejects when `re.search` finds a character outside them).  `dot_digit_re` is a two-step')
-    out.append('pattern: a character of the first table immediately followed by one of the second.')
+    out.append('`<x>Allowed`: inclusive code-point ranges of the characters `c` for which `<re>.search(c)` is')
+    out.append('None, i.e. the characters the validator allows (it rejects when `search` finds any other).')
+    out.append('`dotDigitFirst` / `dotDigitSecond`: `dot_digit_re.search` finds a character of the first table')
+    out.append('immediately followed by one of the second.')
     out.append('-/')
     out.append('namespace Txdbus.Gen.Validators')
     out.append('')
     for lean_name in ('objPath', 'iface', 'bus', 'member'):
-        attr, pat, allowed = t[lean_name]
-        out.append('/-- `%s = re.compile(%s)` -/' % (attr, _lean_str(pat).replace('-/', '- /')))
-        out.append('def %sSrc : String := %s' % (lean_name, _lean_str(pat)))
-        out.append('def %sAllowed : List (Nat × Nat) := %s' % (lean_name, _lean_ranges(allowed)))
+        attr, allowed = t[lean_name]
+        out.append('/-- allowed characters of `txdbus.marshal.%s` -/' % attr)
+        if len(allowed) <= 8:
+            out.append('def %sAllowed : List (Nat × Nat) := %s' % (lean_name, _lean_ranges(allowed)))
+        else:
+            out.append('def %sAllowed : List (Nat × Nat) :=' % lean_name)
+            out.extend(_wrapped(allowed))
         out.append('')
-    attr, pat, (first, second) = t['dotDigit']
-    out.append('/-- `%s = re.compile(%s)`; `\\d` is Unicode category Nd (str pattern, no re.ASCII) -/' % (attr, _lean_str(pat)))
-    out.append('def dotDigitSrc : String := %s' % _lean_str(pat))
-    out.append('def dotDigitFirst : List (Nat × Nat) := %s' % _lean_ranges(first))
+    attr, (first, second) = t['dotDigit']
+    out.append('/-- first and second character of a match of `txdbus.marshal.%s` -/' % attr)
+    out.append('def dotDigitFirst : List (Nat × Nat) :=')
+    out.extend(_wrapped(first))
     out.append('def dotDigitSecond : List (Nat × Nat) :=')
-    # wrap the long list
-    items = ['(%d, %d)' % r for r in second]
-    lines, cur = [], '  ['
-    for k, it in enumerate(items):
-        piece = it + (', ' if k + 1 < len(items) else ']')
-        if len(cur) + len(piece) > 100:
-            lines.append(cur.rstrip())
-            cur = '   '
-        cur += piece
-    lines.append(cur)
-    out.extend(lines)
+    out.extend(_wrapped(second))
     out.append('')
     out.append('end Txdbus.Gen.Validators')
     return '\n'.join(out) + '\n'
